@@ -421,6 +421,12 @@ func BuildHEIF(r *core.Rng, tiff []byte, brandChoice int) []byte {
 	out = ft.Serialise(out)
 	out = meta.Serialise(out)
 	mdatOff := len(out) + 8
+	if brandChoice >= 4 && brandChoice%8 >= 4 {
+		// the 64-bit size form (size field 1 + largesize), which writers use for large image data:
+		// the payload starts 16 bytes into the box
+		mdat.Large = true
+		mdatOff += 8
+	}
 	// patch iloc offsets
 	p := iloc.PayloadOff + 4
 	binary.BigEndian.PutUint32(out[p+6:], uint32(mdatOff))
